@@ -395,8 +395,11 @@ P('C17', claimed=True, level='other', contracts=['base_netaddr_bind', 'synth_nod
 
 P('C18', claimed=True, level='other',
   contracts=['base_osclib_parse', 'base_responders'], drivers=['vf.drivers.C18'],
-  level_text=('Discharged: progress of the bundle parser (every iteration consumes 4 + size bytes with size >= 0, '
-              'or raises), the index laws of get_int/get_timetag/get_blob, and who fires: the sender filter '
+  level_text=('Discharged: the message decoder OscMessage._parse_datagram (address read at 0, tag string where it ended, and '
+              'for EVERY tag character the decoder of that type called once at the current position, the position moved to '
+              'where it says, the value appended to the innermost open list; T/F, array brackets with a ghost depth, unknown '
+              'tags skipped; every opened array closed at the end), progress of the bundle parser (every iteration consumes 4 + size bytes with size >= 0, '
+              'or raises; elements adjacent, each parsed once as what it starts like and kept), the index laws of get_int/get_timetag/get_blob, and who fires: the sender filter '
               '(same host and any-or-same port), the receiving-port filter, their conjunction, the argument '
               'template filter (enough arguments and every template item accepts: None anything, a callable by its '
               'truth value, else equality; quantified loop invariant) - each fires exactly once with the four '
